@@ -401,3 +401,27 @@ def mat_close(A, B, tol=1e-9):
 
 def canon_hash(obj) -> str:
     return hashlib.sha256(json.dumps(obj, sort_keys=True, default=str).encode()).hexdigest()[:16]
+
+
+def coqchk(pid: str, timeout=2400):
+    """Independent re-check of Props/<pid>.vo and everything it depends on; returns (ok, axioms, text)."""
+    rc, out = sh(f"timeout {timeout} coqchk -silent -o -Q . PV PV.Props.{pid}", timeout + 60, COQ)
+    axioms = []
+    m = re.search(r"\* Axioms:(.*?)\n\s*\n\* Constants/Inductives relying on type-in-type:(.*?)\n\s*\n\* Constants/Inductives relying on unsafe \(co\)fixpoints:(.*?)\n\s*\n\* Inductives whose positivity is assumed:(.*)", out, re.S)
+    ok = rc == 0 and m is not None
+    bad = []
+    if m:
+        ax = m.group(1).strip()
+        if ax and ax != "<none>":
+            axioms = [l.strip() for l in ax.splitlines() if l.strip()]
+        for grp in (2, 3, 4):
+            g = m.group(grp).strip()
+            if g and g != "<none>":
+                bad.append(g)
+    # coqchk lists the axioms of every LOADED library (e.g. Classical_Prop.classic comes with Coq.Reals even though no
+    # theorem of ours depends on it: Print Assumptions is the per-theorem audit). Axioms declared by the standard
+    # library are reported; an axiom declared anywhere else (this development, another library) is a failure.
+    for a in axioms:
+        if not a.startswith("Coq."):
+            bad.append(a)
+    return ok and not bad, axioms, out[-1500:]
